@@ -387,15 +387,11 @@ func main() {
 		for _, s := range st.sites {
 			delete(neverExecuted, s)
 		}
-		n1, n2 := 0, 0
+		per := map[string]int{}
 		for h := range st.hashes {
-			if strings.HasPrefix(h, "1:") {
-				n1++
-			} else {
-				n2++
-			}
+			per["step"+h[:strings.Index(h, ":")]]++
 		}
-		distinct[st.p.Name] = map[string]int{"step1": n1, "step2": n2}
+		distinct[st.p.Name] = per
 		gen := 0
 		for f := range st.base.Steps[0].Tree {
 			if _, pristine := st.p.Files[f]; !pristine {
